@@ -138,9 +138,7 @@ def coq_build(pid, mod):
                errors=[], checker_cmd='')
     os.makedirs(os.path.join(COQ, 'cases'), exist_ok=True)
     os.makedirs(os.path.join(ROOT, 'ocaml', 'build'), exist_ok=True)
-    lock = open(os.path.join(COQ, '.lock'), 'w')
-    fcntl.flock(lock, fcntl.LOCK_EX)
-    try:
+    if True:
         rc, out, err = run([sys.executable, os.path.join(ROOT, 'tools', 'gen_constants.py')], timeout=120)
         if rc != 0:
             res['gen_ok'] = False
@@ -199,9 +197,21 @@ def coq_build(pid, mod):
             if len(blocks) < len(printed):
                 res['errors'].append('first theorem that no longer checks: %s' % printed[len(blocks)])
         return res
-    finally:
-        fcntl.flock(lock, fcntl.LOCK_UN)
-        lock.close()
+
+
+class CoqLock:
+    """serialises every step that reads or writes coq/ and ocaml/build (several checks may run at once,
+    possibly against different checkouts: Gen.v differs between them)"""
+
+    def __enter__(self):
+        os.makedirs(os.path.join(COQ, 'cases'), exist_ok=True)
+        self.f = open(os.path.join(COQ, '.lock'), 'w')
+        fcntl.flock(self.f, fcntl.LOCK_EX)
+        return self
+
+    def __exit__(self, *a):
+        fcntl.flock(self.f, fcntl.LOCK_UN)
+        self.f.close()
 
 
 def vm_cross_check(pid, mod, pairs):
@@ -401,25 +411,7 @@ def main():
             return 1
         return 0
 
-    # ---- 1-3: Coq + driver
-    if args.no_coq:
-        cb = dict(gen_ok=True, model_ok=True, obligations=0, discharged=0, theorems=[], assumptions={},
-                  errors=[], checker_cmd='(skipped)')
-    else:
-        cb = coq_build(pid, mod)
-    audit = audit_sources()
-    if audit:
-        cb['errors'].append('audit: forbidden declarations: %s' % audit[:5])
-    exe = None
-    if cb['model_ok']:
-        exe, msg = build_drivers.build(pid)
-        if exe is None:
-            cb['model_ok'] = False
-            cb['errors'].append('driver: ' + msg)
-    proofs_ok = (cb['gen_ok'] and not audit and cb['obligations'] > 0
-                 and cb['discharged'] == cb['obligations'] and not cb['errors']) or args.no_coq
-
-    # ---- 4-5: cases
+    # ---- cases (generated before the build so that the locked section stays short)
     n = mod.N_THOROUGH if args.tier == 'thorough' else mod.N_QUICK
     cases = list(mod.corpus())
     cpath = os.path.join(ROOT, 'corpus', '%s.jsonl' % pid)
@@ -434,20 +426,56 @@ def main():
         extra = list(mod.thorough())
         cases.extend(extra)
         exhaustive = bool(extra) and getattr(mod, 'THOROUGH_EXHAUSTIVE', False)
+
+    # ---- 1-3: Coq + driver + in-Coq evaluation of the first cases, under the lock
+    vm_ok, vm_n, vm_msg = True, 0, ''
+    exe = None
+    with CoqLock():
+        if args.no_coq:
+            cb = dict(gen_ok=True, model_ok=True, obligations=0, discharged=0, theorems=[], assumptions={},
+                      errors=[], checker_cmd='(skipped)')
+        else:
+            cb = coq_build(pid, mod)
+        audit = audit_sources()
+        if audit:
+            cb['errors'].append('audit: forbidden declarations: %s' % audit[:5])
+        if cb['model_ok']:
+            exe0, msg = build_drivers.build(pid)
+            if exe0 is None:
+                cb['model_ok'] = False
+                cb['errors'].append('driver: ' + msg)
+            else:
+                import shutil
+                import tempfile
+                tmpd = tempfile.mkdtemp(prefix='verif_drv_')
+                exe = os.path.join(tmpd, 'drv_%s' % pid)
+                shutil.copy2(exe0, exe)
+        if exe and not args.no_coq:
+            k = getattr(mod, 'VM_CASES', 40)
+            head = cases[:k]
+            if n_corpus < k:
+                pass
+            encs = [mod.encode(c) for c in head]
+            outs, derr0 = run_model(exe, encs)
+            if outs is None:
+                cb['errors'].append('driver run: ' + derr0)
+            else:
+                vm_ok, vm_n, vm_msg = vm_cross_check(pid, mod, list(zip(encs, outs)))
+                if not vm_ok:
+                    cb['errors'].append('extracted model and vm_compute disagree (or cases file failed): ' + vm_msg)
+    proofs_ok = (cb['gen_ok'] and not audit and cb['obligations'] > 0
+                 and cb['discharged'] == cb['obligations'] and not cb['errors']) or args.no_coq
+
+    # ---- 4-5: run implementation, extracted model, oracle
     recs, derr = evaluate(mod, exe, cases, cb['model_ok'])
+    if exe:
+        import shutil
+        shutil.rmtree(os.path.dirname(exe), ignore_errors=True)
     if derr:
         cb['errors'].append('driver run: ' + derr)
     disagreements = [r for r in recs if r['agree'] is False]
     failures = [r for r in recs if r['fail']]
     corr_ok = cb['model_ok'] and not derr and not disagreements
-
-    # vm_compute cross-check of the extraction on the first cases
-    vm_ok, vm_n, vm_msg = True, 0, ''
-    if cb['model_ok'] and not derr and not args.no_coq:
-        pairs = [(r['enc'], r['raw']) for r in recs[:getattr(mod, 'VM_CASES', 40)] if r['raw'] is not None]
-        vm_ok, vm_n, vm_msg = vm_cross_check(pid, mod, pairs)
-        if not vm_ok:
-            cb['errors'].append('extracted model and vm_compute disagree (or cases file failed): ' + vm_msg)
 
     # ---- search with an enlarged budget when a tie or an obligation is broken
     searched = 0
